@@ -424,6 +424,27 @@ class ExprMixin:
                 return Seq(a.items * n, a.kind)
         if isinstance(a, Seq) and isinstance(b, Seq) and isinstance(op, ast.Add):
             return Seq(a.items + b.items, a.kind)
+        # a tuple repeated a symbolic number of times / concatenations with one: a sequence of unknown length whose elements are drawn
+        # from a known finite set (`(FIRST,) + (MORE,) * (n - 2) + (LAST,)`)
+        def _elems(x):
+            if isinstance(x, Seq) and x.kind in ("tuple", "list"):
+                return tuple(x.items), Lin({}, len(x.items))
+            if isinstance(x, Sym) and x.ty == "repseq":
+                return x.attrs["elems"], x.attrs["len"]
+            return None
+        if isinstance(op, ast.Mult) and isinstance(a, Seq) and a.kind in ("tuple", "list") and const_of(b) is None and ty_of(b) in ("int", "bool", None):
+            ln_ = lin_scale(as_lin(b), len(a.items)) if as_lin(b) is not None else Lin({st.fresh_name("replen"): 1}, 0)
+            return Sym(st.fresh_name("repseq"), "repseq", elems=tuple(a.items), len=ln_, notnone=True)
+        if isinstance(op, ast.Add) and (isinstance(a, Sym) and a.ty == "repseq" or isinstance(b, Sym) and b.ty == "repseq"):
+            ea, eb = _elems(a), _elems(b)
+            if ea is not None and eb is not None:
+                seen, el = set(), []
+                for x in ea[0] + eb[0]:
+                    k_ = norm(x).key() if hasattr(x, "key") else repr(x)
+                    if k_ not in seen:
+                        seen.add(k_)
+                        el.append(x)
+                return Sym(st.fresh_name("repseq"), "repseq", elems=tuple(el), len=lin_add(ea[1], eb[1], 1), notnone=True)
         ba, bb = as_bitv(a), as_bitv(b)
         if isinstance(op, (ast.BitAnd, ast.BitOr, ast.BitXor)):
             ba = ba if ba is not None else self.int_as_bits(a)
